@@ -62,7 +62,7 @@ def check(ctx):
         for (x, y) in exits:
             vs = util.variant_switch(body, dg, x)
             c = D.cmp_of_switch(body, dg, x)
-            is_iter_end = bool(vs) and "next" in show(vs[0]) and vs[1].get(0) == y
+            is_iter_end = bool(vs) and "next" in show(vs[0]) and vs[1].get(0, vs[2]) == y
             is_sentinel = bool(c) and (("gconst", "u32::MAX") in (strip_casts(c[1]), strip_casts(c[2])) or ("const", 0xFFFFFFFF) in (strip_casts(c[1]), strip_casts(c[2])))
             good = good and (is_iter_end or is_sentinel)
         ctx.ob("R07.2", f"{k}|loop-ends-only-at-end-of-list", good and bool(exits), body.loc(h), "the sweep stops only when the list is exhausted or at the u32::MAX sentinel (no early break)")
